@@ -16,10 +16,12 @@ pub struct Cap {
     pub out: Vec<Out>,
     pub accept: Vec<usize>, // bytes accepted per write call, cycled; empty = everything
     pub calls: usize,
+    pub fail_after: Option<usize>, // the sink fails once this many bytes were accepted
+    pub total: usize,
 }
 impl Cap {
     pub fn new(accept: Vec<usize>) -> Cap {
-        Cap { out: vec![], accept, calls: 0 }
+        Cap { out: vec![], accept, calls: 0, fail_after: None, total: 0 }
     }
 }
 impl io::Write for Cap {
@@ -27,8 +29,15 @@ impl io::Write for Cap {
         if buf.is_empty() {
             return Ok(0);
         }
-        let n = if self.accept.is_empty() { buf.len() } else { self.accept[self.calls % self.accept.len()].clamp(1, buf.len()) };
+        let mut n = if self.accept.is_empty() { buf.len() } else { self.accept[self.calls % self.accept.len()].clamp(1, buf.len()) };
         self.calls += 1;
+        if let Some(limit) = self.fail_after {
+            if self.total >= limit {
+                return Err(io::Error::new(io::ErrorKind::Other, "sink failure"));
+            }
+            n = n.min(limit - self.total).max(1);
+        }
+        self.total += n;
         match self.out.last_mut() {
             Some(Out::Bytes(b)) => b.extend_from_slice(&buf[..n]),
             _ => self.out.push(Out::Bytes(buf[..n].to_vec())),
